@@ -528,6 +528,20 @@ _ADDENDA11 = {
     'C20': "FeedbackFieldWrapper.__getattr__ / __getitem__ forward to the value's own attribute or item whatever its "
            "name (R12).",
 }
+_ADDENDA14 = {
+    'C02': "No kind constant other than COMPLIMENT evaluates to the value merge() sets compliments aside by (R11).",
+    'C06': "R7 also runs one import replacement over histories - the same dotted module as `import a.b` and as "
+           "`from a.b import c`, in both orders - against a real __import__ that answers per form.",
+    'C09': "R4's witnesses include programs in which an enclosing branch re-assigns a name whose module-path state is "
+           "older (search_parents must answer with the nearest path's state); tifa_analysis, executed for several "
+           "programs on one report, asks process_code for a fresh analysis record every time, and process_code "
+           "replaces the record (R9).",
+    'C11': "AstMap.add_func_to_sym_table is executed for the student nodes a function placeholder can stand for "
+           "(FunctionDef, the Name of a plain call, the Attribute of a method call): the symbol recorded carries the "
+           "student's identifier (R9).",
+}
+for _k, _v in _ADDENDA14.items():
+    CLAIMS[_k]['text'] = CLAIMS[_k]['text'].rstrip() + ' ' + _v
 for _k, _v in _ADDENDA11.items():
     CLAIMS[_k]['text'] = CLAIMS[_k]['text'].rstrip() + ' ' + _v
 for _k, _v in _ADDENDA10.items():
